@@ -511,7 +511,7 @@ def run_c05(ctx):
         "states": sum(r.distinct for r in m1.values()), "transitions": sum(r.generated for r in m1.values()),
         "traces_validated_against_impl": len(order), "evaluations": len(scheds), "distinct_nontrivial": len(distinct),
         "rule": "schedules (thread ids) enumerated by TLC from WaterMarkImpl.tla with the oracle ops TxBegin/TxCommit/TxRead: every interleaving with <= k "
-                "pre-emptions (2 threads k=%d, 3 threads k=%d) plus %d random walks per thread count, plus recorded replays; each executed on a real DB "
+                "pre-emptions (2 threads k=%d, 3 threads k=%d) plus %d random walks per thread count, plus every single-pre-emption position in run-length form (thread a for j steps, then the others), plus recorded replays; each executed on a real DB "
                 "(DetectConflicts=true) whose transaction threads park at the yield points of txn.go and, inside txnMark calls, of watermarker.go; "
                 "non-trivial = a transaction begins (oracle.readTs) while a commit is between drawing its timestamp and finishing doneCommit; "
                 "distinct by (programs, schedule)" % (plan[0][3], plan[1][3], nsim),
@@ -743,7 +743,7 @@ def run(ctx):
         "states": sum(r.distinct for r in m1.values()), "transitions": sum(r.generated for r in m1.values()),
         "traces_validated_against_impl": len(order), "evaluations": len(scheds), "distinct_nontrivial": len(distinct),
         "rule": "schedules (sequences of thread ids) enumerated by TLC from WaterMarkImpl.tla: every interleaving with <= k pre-emptions "
-                "(2 threads: k=%d for one scenario per usage class, k-1 for the others; 3 threads: k=1, thorough k=%d for the smallest scenario) plus %d random walks per thread count (thorough: also %d walks with <= 3 pre-emptions), plus model counterexamples and recorded replays; "
+                "(2 threads: k=%d for one scenario per usage class, k-1 for the others; 3 threads: k=1, thorough k=%d for the smallest scenario) plus %d random walks per thread count (thorough: also %d walks with <= 3 pre-emptions), plus every single-pre-emption position in run-length form (thread a for j steps, then the others; independent of the code's step structure), plus model counterexamples and recorded replays; "
                 "each executed step by step on a real utils.WaterMark; non-trivial = some step runs while another thread is parked inside a WaterMark call; "
                 "distinct by (window, programs, schedule)" % (k2, k3, nsim, nsim),
         "samples": [{"schedule": {k: sample[k] for k in ("w", "progs", "sched")}, "abstract_events": proj[sample["id"]][0][:14],
